@@ -600,6 +600,7 @@ func run(r *vk.Run) {
 	forcedJoin(r)
 	forcedJoinDuringSend(r)
 	leaverMidSeed(r)
+	joinAfterUnpublishedCommits(r)
 	idx := 0
 	for _, isVal := range []bool{false, true} {
 		ops := colOps()
